@@ -121,4 +121,43 @@ fn remove_erased<T: 'static>(op: usize, how: usize, drop: bool) {
     core::mem::forget(v);
 }
 
+/// typed removal (`AnyVecTyped::{remove,swap_remove,pop}`): one call, the value is returned by value
+fn remove_typed<T: 'static>(op: usize) {
+    ghost_init();
+    let (len, cap) = sym_state();
+    kani::assume(len >= 1);
+    let mut v = unsafe { mk_vec::<dyn None, T>(0, len, cap, false, false) };
+    reg(&v, 0);
+    let esz = size_of::<T>();
+    let w = witness_slot(TW, 0, len);
+    watch_uninit(0, len, cap);
+    let index = if op == OP_POP { len - 1 } else { let i = any_narrow(); kani::assume(i < len); i };
+    {
+        let mut t = v.downcast_mut::<T>().unwrap();
+        if op == OP_REMOVE { core::mem::forget(t.remove(index)); }
+        else if op == OP_SWAP_REMOVE { core::mem::forget(t.swap_remove(index)); }
+        else { let r = t.pop(); kani::assert(r.is_some(), "typed pop: Some on a non-empty vector"); core::mem::forget(r); }
+    }
+    let len2 = v.len();
+    kani::assert(len2 == post::remove_len(len), "typed removal: len' == len - 1");
+    kani::assert(v.capacity() == cap && g().v[0].cap_changes == 0, "typed removal never changes capacity");
+    kani::assert(g().out_count == (if esz == 0 { 0 } else { 1 }) && g().total_destroyed == 0 && g().in_count == 0 && g().n_clone_calls == 0,
+        "typed removal: exactly the removed value is moved out, nothing destroyed, written or cloned");
+    kani::assert(g().out_last_src == base(0) + index * esz || esz == 0, "typed removal: the returned value is read from slot index");
+    if esz != 0 {
+        let (kind, pos) = if op == OP_REMOVE {
+            (post::remove_old_kind(len, index, w, 2), if w == index { 0 } else { post::remove_old_pos(len, index, w) })
+        } else if op == OP_SWAP_REMOVE {
+            (post::swap_remove_old_kind(len, index, w, 2), if w == index { 0 } else { post::swap_remove_old_pos(len, index, w) })
+        } else {
+            (post::pop_old_kind(len, w, 2), post::pop_old_pos(len, w))
+        };
+        let (n, p, a, d, o) = obs(TW, 0, len2, pos);
+        kani::assert(post::fate_ok(kind, pos, n, p, a, d, o), "typed removal: every old element has the fate Vec gives it");
+    }
+    kani::cover!(index == 0 && len > 1, "COV remove first of several");
+    kani::cover!(true, "REACHED");
+    core::mem::forget(v);
+}
+
 include!("k2_remove.inst.rs");
